@@ -438,6 +438,11 @@ func (ri *reflectInspector) recordArgReflected(val ssa.Value, visited map[ssa.Va
 
 		ri.recursivelyRecordUsedForReflect(val.Type())
 		return val
+	default:
+		// Any other value, such as the result of a function call, a type assertion,
+		// a map lookup, or a field of a struct value: we do not follow where it
+		// comes from, but its static type is what reaches reflection.
+		ri.recursivelyRecordUsedForReflect(val.Type())
 	}
 
 	return nil
